@@ -333,24 +333,44 @@ octal), at most 19 of them (fits in 64 bits) -/
 def NumberText (w : Bytes) : Prop :=
   ∃ c cs, w = c :: cs ∧ isDigitByte c = true ∧ c.toNat ≠ 48 ∧ (∀ x ∈ cs, isDigitByte x = true) ∧ cs.length + 1 ≤ 19
 
-/-- **`##` of two numbers.**  If the joined spelling is a decimal number (no leading `0`, at most 18 digits),
+/-- **`##` of two numbers.**  If the joined spelling is a decimal number (no leading `0`, at most 19 digits),
 `pasteTokens` yields the integer token of that spelling -- and the lexer model of C10 reads the joined text as exactly
 one integer literal, whose value is the number the digits denote, followed by the appended line end. -/
-theorem paste_numbers_matches_lexer (a b : String) (ha0 : a.startsWith "0" = false) (hlen : (a ++ b).length ≤ 18)
-    (hshape : NumberText (str (a ++ b))) :
+theorem paste_numbers_matches_lexer (a b : String) (hshape : NumberText (str (a ++ b))) :
     pasteTokens ⟨.int a, true⟩ ⟨.int b, true⟩ = .ok ⟨.int (a ++ b), true⟩ ∧
     readToEnd (str (a ++ b)) =
       .ok [⟨.litInt (RsslVerif.Spec.Dec2Bin.ofDigits 10 (digitRun decDigit? (str (a ++ b)))), 0,
               (str (a ++ b)).length⟩,
            ⟨.simple .Endline, (str (a ++ b)).length, (str (a ++ b)).length⟩] := by
-  constructor
-  · have : a.length + b.length ≤ 18 := by simpa using hlen
-    simp [pasteTokens, ha0]
-    omega
-  · obtain ⟨c, cs, hw, hc, hc0, hcs, hl⟩ := hshape
+  have hlex : readToEnd (str (a ++ b)) =
+      .ok [⟨.litInt (RsslVerif.Spec.Dec2Bin.ofDigits 10 (digitRun decDigit? (str (a ++ b)))), 0,
+              (str (a ++ b)).length⟩,
+           ⟨.simple .Endline, (str (a ++ b)).length, (str (a ++ b)).length⟩] := by
+    obtain ⟨c, cs, hw, hc, hc0, hcs, hl⟩ := hshape
     have hlen' : (str (a ++ b)).length = cs.length + 1 := by rw [hw]; simp
     rw [hlen', hw, lex_digits c cs hc hc0 hcs hl]
+  refine ⟨?_, hlex⟩
+  have h1 : lexOne (a ++ b) =
+      some (.litInt (RsslVerif.Spec.Dec2Bin.ofDigits 10 (digitRun decDigit? (str (a ++ b))))) := by
+    unfold lexOne
+    rw [hlex]
+    simp
+  simp [pasteTokens, h1, isIntLiteral]
 
+/-- **`##` of two numbers in ANY spelling** (hex, octal, leading zeros, suffixes): the model joins the two source
+spellings and asks the lexer model of C10 -- the paste succeeds with the integer token *spelled* `a ++ b` exactly when
+the lexer reads the joined SPELLING as one integer literal followed by the appended line end, and it is `ConcatFailed`
+exactly when the lexer does not read one token.  Nothing depends on the values of the operands: `0x1 ## 0` is `0x10`
+(16), not `10`; `00 ## 7` is `007` (7); `1u ## 2` is no token. -/
+theorem paste_number_spellings_match_lexer (a b : String) :
+    (pasteTokens ⟨.int a, true⟩ ⟨.int b, true⟩ = .ok ⟨.int (a ++ b), true⟩ ↔
+      ∃ t, lexOne (a ++ b) = some t ∧ isIntLiteral t = true) ∧
+    (pasteTokens ⟨.int a, true⟩ ⟨.int b, true⟩ = .error .concatFailed ↔ lexOne (a ++ b) = none) ∧
+    (∀ m, pasteTokens ⟨.int a, true⟩ ⟨.int b, true⟩ = .ok m → m = ⟨.int (a ++ b), true⟩) := by
+  cases h : lexOne (a ++ b) with
+  | none => simp [pasteTokens, h]
+  | some t =>
+    cases ht : isIntLiteral t <;> simp [pasteTokens, h, ht]
 
 /-- does the lexer read this text as exactly one token followed by the appended line end? -/
 def lexesToOneToken (w : Bytes) : Bool :=
